@@ -32,8 +32,52 @@ FAMILIES = {
 }
 
 
+def generated_family(k):
+    """thorough tier: a screen structure drawn from a seeded generator (structure only - observation values, every
+    parameter and every generator draw stay symbolic).  Unobserved plates hold one sample each; rows of a plate are not
+    adjacent; sizes repeat; single-agent and vehicle-only rows, duplicate conditions and an optional observed plate occur."""
+    import random
+    r = random.Random(7919 * (k + 1))
+    n_samples = r.choice((1, 2, 2, 3))
+    n_plates = r.randint(2, 5)
+    sizes = [r.choice((1, 1, 2, 2, 3)) for _ in range(n_plates)]
+    while sum(sizes) > 7:
+        sizes[sizes.index(max(sizes))] -= 1
+    sizes = [z for z in sizes if z > 0]
+    rows = []
+    for p, z in enumerate(sizes):
+        smp = "s%d" % (1 + (p % n_samples if p < n_samples else r.randrange(n_samples)))
+        for _ in range(z):
+            rows.append((smp,) + _random_condition(r) + ("u%d" % (p + 1),))
+    if r.random() < 0.5:
+        smp = "s%d" % (1 + r.randrange(n_samples))
+        for _ in range(r.choice((1, 2))):
+            rows.append((smp,) + _random_condition(r) + ("obs",))
+    r.shuffle(rows)
+    return rows
+
+
+def _random_condition(r):
+    kind = r.random()
+    t1, t2 = r.sample("abcd", 2)
+    d1, d2 = r.choice((1.0, 2.0)), r.choice((1.0, 1.0, 2.0))
+    if kind < 0.08:
+        return ("", 0.0, "", 0.0)
+    if kind < 0.25:
+        return (t1, d1, "", 0.0)
+    if kind < 0.32:
+        return ("", 0.0, t2, d2)
+    return (t1, d1, t2, d2)
+
+
+def family(fam):
+    if fam not in FAMILIES and fam.startswith("G"):
+        FAMILIES[fam] = generated_family(int(fam[1:]))
+    return FAMILIES[fam]
+
+
 def build(ctx, fam, R, all_observed=False, all_unobserved=False):
-    rows = FAMILIES[fam][:R]
+    rows = family(fam)[:R]
     obs = [ctx.real("ob%d" % i, positive=True) for i in range(R)]
     for i in range(R):
         for j in range(i):
@@ -80,7 +124,7 @@ def match_rows(ctx, out, rows, tags):
     return idx, attrs_ok, t
 
 
-def fixture_values(R=7):
+def fixture_values(R=10):
     import random
     out = []
     for seed in (1, 2, 3):
